@@ -408,3 +408,16 @@ def glue(a, b, x):
 
 def first_of(t):
     return next(iter(t))
+
+
+def extend_dedupe(xs, src):
+    # round 4: the generator is consumed LAZILY -- `g not in out` sees what this very call appended so far
+    out = list(xs)
+    out.extend(g for g in src if g not in out)
+    return out
+
+
+def extend_dedupe_small(a, b):
+    out = []
+    out.extend(g for g in (a, b, a) if g not in out)
+    return out
